@@ -205,8 +205,14 @@ func (w *c03World) call(method string, calls []*simfs.Call) *simfs.Call {
 	return nil
 }
 
-func (w *c03World) onHandle(what string, c *simfs.Call, f p9.File) {
+func (w *c03World) onHandle(what string, c *simfs.Call, f p9.File, err error) {
 	if c == nil {
+		// The server may refuse a request in the handle's state (the caller
+		// then gets that error), but success without the backend having been
+		// asked is an answer the File never gave.
+		if err == nil {
+			w.find("not-forwarded", what, "%s returned success to the caller but never reached the backend", what)
+		}
 		return
 	}
 	if want := w.hof[f]; want != nil && c.H != want {
@@ -236,7 +242,7 @@ func (w *c03World) op(files *[]p9.File) {
 		_ = be
 		q, v, a, err := f.GetAttr(mask)
 		c := w.call("GetAttr", calls())
-		w.onHandle("GetAttr", c, f)
+		w.onHandle("GetAttr", c, f, err)
 		if c != nil && c.Mask != mask {
 			w.find("wrong-args", "GetAttr", "GetAttr mask %+v reached the backend as %+v", mask, c.Mask)
 		}
@@ -249,7 +255,7 @@ func (w *c03World) op(files *[]p9.File) {
 		_ = be
 		err := f.SetAttr(valid, attr)
 		c := w.call("SetAttr", calls())
-		w.onHandle("SetAttr", c, f)
+		w.onHandle("SetAttr", c, f, err)
 		want := attr
 		want.Permissions &= 0o7777
 		if c != nil && (c.SetMask != valid || c.SetAttr != want) {
@@ -299,7 +305,7 @@ func (w *c03World) op(files *[]p9.File) {
 		_ = be
 		q, io, err := f.Open(fl)
 		c := w.call("Open", calls())
-		w.onHandle("Open", c, f)
+		w.onHandle("Open", c, f, err)
 		if c != nil && c.Flags != uint32(fl) {
 			w.find("wrong-args", "Open", "Open(%#x) reached the backend as %#x", fl, c.Flags)
 		}
@@ -316,7 +322,7 @@ func (w *c03World) op(files *[]p9.File) {
 		_ = be
 		n, err := f.ReadAt(p, off)
 		c := w.call("ReadAt", calls())
-		w.onHandle("ReadAt", c, f)
+		w.onHandle("ReadAt", c, f, err)
 		if c != nil {
 			if c.Offset != uint64(off) || int(c.Count) != len(p) {
 				w.find("wrong-args", "ReadAt", "ReadAt(len %d, off %d) reached the backend as (n %d, off %d)", len(p), off, c.Count, c.Offset)
@@ -342,7 +348,7 @@ func (w *c03World) op(files *[]p9.File) {
 		_ = be
 		n, err := f.WriteAt(p, off)
 		c := w.call("WriteAt", calls())
-		w.onHandle("WriteAt", c, f)
+		w.onHandle("WriteAt", c, f, err)
 		if c != nil {
 			if c.Offset != uint64(off) || !bytes.Equal(c.Data, p) {
 				w.find("wrong-args", "WriteAt", "WriteAt(%d bytes, off %d) reached the backend as (%d bytes, off %d)", len(p), off, len(c.Data), c.Offset)
@@ -361,7 +367,7 @@ func (w *c03World) op(files *[]p9.File) {
 		_ = be
 		ds, err := f.Readdir(off, cnt)
 		c := w.call("Readdir", calls())
-		w.onHandle("Readdir", c, f)
+		w.onHandle("Readdir", c, f, err)
 		if c != nil {
 			if c.Offset != off || c.Count != cnt {
 				w.find("wrong-args", "Readdir", "Readdir(%d, %d) reached the backend as (%d, %d)", off, cnt, c.Offset, c.Count)
@@ -383,7 +389,7 @@ func (w *c03World) op(files *[]p9.File) {
 		_ = be
 		t, err := f.Readlink()
 		c := w.call("Readlink", calls())
-		w.onHandle("Readlink", c, f)
+		w.onHandle("Readlink", c, f, err)
 		if c != nil && w.errCheck("Readlink", err, cerr(c)) && t != st {
 			w.find("wrong-result", "Readlink", "backend returned %q, caller got %q", trunc(st, 40), trunc(t, 40))
 		}
@@ -393,7 +399,7 @@ func (w *c03World) op(files *[]p9.File) {
 		_ = be
 		st, err := f.StatFS()
 		c := w.call("StatFS", calls())
-		w.onHandle("StatFS", c, f)
+		w.onHandle("StatFS", c, f, err)
 		if w.errCheck("StatFS", err, cerr(c)) && st != ss {
 			w.find("wrong-result", "StatFS", "backend returned %+v, caller got %+v", ss, st)
 		}
@@ -402,7 +408,7 @@ func (w *c03World) op(files *[]p9.File) {
 		_ = be
 		err := f.FSync()
 		c := w.call("FSync", calls())
-		w.onHandle("FSync", c, f)
+		w.onHandle("FSync", c, f, err)
 		if c != nil {
 			w.errCheck("FSync", err, cerr(c))
 		}
@@ -477,7 +483,7 @@ func (w *c03World) op(files *[]p9.File) {
 		_ = be
 		err := f.Link(t, name)
 		c := w.call("Link", calls())
-		w.onHandle("Link", c, f)
+		w.onHandle("Link", c, f, err)
 		if c != nil {
 			if c.Name != name || (w.hof[t] != nil && c.Target != w.hof[t]) {
 				w.find("wrong-args", "Link", "Link(target, %q) reached the backend as %s (target handle %v, want %v)", trunc(name, 30), c, c.Target, w.hof[t])
@@ -511,7 +517,7 @@ func (w *c03World) op(files *[]p9.File) {
 		_ = be
 		err := f.RenameAt(on, d, nn)
 		c := w.call("RenameAt", calls())
-		w.onHandle("RenameAt", c, f)
+		w.onHandle("RenameAt", c, f, err)
 		if c != nil {
 			if c.Name != on || c.Name2 != nn || (w.hof[d] != nil && c.Target != w.hof[d]) {
 				w.find("wrong-args", "RenameAt", "RenameAt(%q, dir, %q) reached the backend as %s", trunc(on, 30), trunc(nn, 30), c)
@@ -524,7 +530,7 @@ func (w *c03World) op(files *[]p9.File) {
 		_ = be
 		err := f.UnlinkAt(name, fl)
 		c := w.call("UnlinkAt", calls())
-		w.onHandle("UnlinkAt", c, f)
+		w.onHandle("UnlinkAt", c, f, err)
 		if c != nil {
 			if c.Name != name || c.Flags != fl {
 				w.find("wrong-args", "UnlinkAt", "UnlinkAt(%q, %#x) reached the backend as %s flags=%#x", trunc(name, 30), fl, c, c.Flags)
@@ -538,7 +544,7 @@ func (w *c03World) op(files *[]p9.File) {
 		_ = be
 		got, err := f.Lock(pid, lt, lf, st, ln, cl)
 		c := w.call("Lock", calls())
-		w.onHandle("Lock", c, f)
+		w.onHandle("Lock", c, f, err)
 		if c == nil {
 			if be == nil && err != nil && errnoOf(err) == EBADF {
 				w.find("wrong-file", "Lock", "Lock did not reach the backend at all (the request named an unbound fid): %v", err)
@@ -559,7 +565,7 @@ func (w *c03World) op(files *[]p9.File) {
 		_ = be
 		v, err := f.GetXattr(name)
 		c := w.call("GetXattr", calls())
-		w.onHandle("GetXattr", c, f)
+		w.onHandle("GetXattr", c, f, err)
 		if c != nil {
 			if c.Name != name {
 				w.find("wrong-args", "GetXattr", "GetXattr(%q) reached the backend as %q", trunc(name, 30), trunc(c.Name, 30))
@@ -577,7 +583,7 @@ func (w *c03World) op(files *[]p9.File) {
 		_ = be
 		l, err := f.ListXattrs()
 		c := w.call("ListXattrs", calls())
-		w.onHandle("ListXattrs", c, f)
+		w.onHandle("ListXattrs", c, f, err)
 		if c != nil && w.errCheck("ListXattrs", err, cerr(c)) && !(len(l) == 0 && len(sl) == 0) && !reflect.DeepEqual(l, sl) {
 			w.find("wrong-result", "ListXattrs", "backend returned %q, caller got %q", sl, l)
 		}
